@@ -113,6 +113,7 @@ def _random_scenarios(pid, rng, n, *, costs=False, findings=False) -> List[Dict[
                                   kernels=(1, 2, 3, 4, 5, 7, 9), standalone_bn=True, explicit_sym_pad=True)
         if not any(nd["op"] in ("conv", "lin") and not nd["excl"] for nd in arch["nodes"]) or pitgen.rejected_fusion(arch):
             continue
+        pitgen.drop_affine(rng, arch)
         # (time masks on explicitly, symmetrically padded layers: outside C01's domain, inside that of the others)
         m = pitgen.random_masks(rng, arch, p_prune=rng.choice([0.2, 0.5, 0.8]), noncausal_time=(pid != "C01"))
         sc = {"arch": arch, "fold": rng.random() < 0.4, "seed": rng.randrange(10 ** 6), "alive": m["alive"], "tm": m["tm"],
@@ -132,6 +133,7 @@ def _trained_scenarios(pid, rng, n, *, costs=False) -> List[Dict[str, Any]]:
                                   standalone_bn=True, explicit_sym_pad=True)
         if not any(nd["op"] in ("conv", "lin") and not nd["excl"] for nd in arch["nodes"]) or pitgen.rejected_fusion(arch):
             continue
+        pitgen.drop_affine(rng, arch)
         sc = {"arch": arch, "fold": rng.random() < 0.4, "seed": rng.randrange(10 ** 6), "alive": {}, "tm": {},
               "train": {"steps": rng.randint(1, 8), "lr": rng.choice([0.05, 0.2, 0.5, 2.0]),
                         "strength": rng.choice([1e-3, 1e-2, 0.1, 1.0]), "task": rng.choice([0.0, 0.01, 1.0]),
@@ -153,6 +155,7 @@ def _c08_adversarial(rng, n) -> List[Dict[str, Any]]:
                                   standalone_bn=True, explicit_sym_pad=True)
         if not any(nd["op"] in ("conv", "lin") and not nd["excl"] for nd in arch["nodes"]) or pitgen.rejected_fusion(arch):
             continue
+        pitgen.drop_affine(rng, arch)
         sh = shapes(arch)
         alpha, tmraw = {}, {}
         mode = rng.choice(["zero", "neg", "huge", "mix", "mix", "rand"])
